@@ -233,6 +233,64 @@ func ruleNoNodeMemo(c *Ctx, rule string) {
 		}
 	}
 	c.Floor(rule, n, 1)
+	// containers whose static type hides what they hold (sync.Map, atomic.Value, interface values,
+	// maps/slices of interfaces): no tree node is put into one that belongs to the filespace object
+	isFsField := func(v ssa.Value) (string, bool) {
+		for d := 0; d < 3; d++ {
+			switch x := v.(type) {
+			case *ssa.UnOp:
+				v = x.X
+				continue
+			case *ssa.FieldAddr:
+				if strings.HasPrefix(fieldName(x), "memfs.Filespace.") {
+					_, fresh := resolve(x.X).(*ssa.Alloc)
+					return fieldName(x), !fresh
+				}
+			}
+			break
+		}
+		return "", false
+	}
+	nodeValued := func(v ssa.Value) bool {
+		if mi, ok := v.(*ssa.MakeInterface); ok {
+			return holdsNode(mi.X.Type(), 0)
+		}
+		return holdsNode(v.Type(), 0)
+	}
+	for _, f := range c.P.PkgFuncs(memfsPkg) {
+		for _, g := range withClosures(f) {
+			eachInstr(g, func(_ *ssa.BasicBlock, _ int, in ssa.Instruction) {
+				fld, what := "", ""
+				switch x := in.(type) {
+				case *ssa.Call:
+					cal := x.Call.StaticCallee()
+					if cal == nil || cal.Pkg == nil || (cal.Pkg.Pkg.Path() != "sync" && cal.Pkg.Pkg.Path() != "sync/atomic") || len(x.Call.Args) < 2 {
+						return
+					}
+					if fn, ok := isFsField(x.Call.Args[0]); ok {
+						for _, a := range x.Call.Args[1:] {
+							if nodeValued(a) {
+								fld, what = fn, cal.Name()
+							}
+						}
+					}
+				case *ssa.MapUpdate:
+					if fn, ok := isFsField(x.Map); ok && !nodeFields[fn] && (nodeValued(x.Value) || nodeValued(x.Key)) {
+						fld, what = fn, "map update"
+					}
+				case *ssa.Store:
+					if fn, ok := isFsField(x.Addr); ok && !nodeFields[fn] && nodeValued(x.Val) {
+						fld, what = fn, "store"
+					}
+				}
+				if fld == "" {
+					return
+				}
+				c.Bad(rule, fmt.Sprintf("%s on %s in %s", what, fld, fname(g)), in.Pos(),
+					"a tree node is remembered in the filespace object (in a container whose type hides it) — once a Remove/RemoveAll detaches that node or an ancestor, later operations through the remembered pointer succeed but their effect is not in the tree")
+			})
+		}
+	}
 }
 
 // byteAltering: string functions that change bytes inside names.
@@ -287,7 +345,27 @@ func ruleNamesOpaque(c *Ctx, rule string, iface *types.Interface, impls []*types
 						alter = true
 					}
 				}
-				if !alter {
+				// a test of the path against a fragment of a name ("..", ".", "tmp"): whole segments
+				// ("../", "/x/") and the separator itself are structure, anything else judges a name by
+				// part of its bytes
+				fragment := ""
+				if s, ok := constString(ci.Arg(1)); ok && strings.Trim(s, "/") != "" {
+					switch q {
+					case "strings.HasPrefix":
+						if !strings.HasSuffix(s, "/") {
+							fragment = s
+						}
+					case "strings.HasSuffix":
+						if !strings.HasPrefix(s, "/") {
+							fragment = s
+						}
+					case "strings.Contains", "strings.Index", "strings.LastIndex", "strings.Count":
+						if !(strings.HasPrefix(s, "/") && strings.HasSuffix(s, "/")) {
+							fragment = s
+						}
+					}
+				}
+				if !alter && fragment == "" {
 					continue
 				}
 				a := ci.Arg(0)
@@ -301,6 +379,9 @@ func ruleNamesOpaque(c *Ctx, rule string, iface *types.Interface, impls []*types
 					if o.Kind == "param" {
 						if p, ok := o.Val.(*ssa.Parameter); ok && isStringy(p.Type()) {
 							bad = fmt.Sprintf("path parameter %s passes %s", p.Name(), lastSeg(q))
+							if !alter {
+								bad = fmt.Sprintf("path parameter %s is tested with %s against the name fragment %q", p.Name(), lastSeg(q), fragment)
+							}
 							pos = ci.Pos()
 						}
 					}
